@@ -33,7 +33,7 @@ OBLIGATIONS = [NS + t for t in [
     "enableMask_spec", "column2feature_isSome",
     "makeHashes_sorted", "mem_makeHashes", "find_spec", "sample_classified", "class_weights_pos",
     # round 5: closed form of the class counts; the hypotheses of class_weights_pos hold for what make_xclass_stats computes
-    "class_counts_closed_form", "xclass_counts_pos", "xclass_weights_pos",
+    "class_counts_closed_form", "xclass_counts_pos", "xclass_weights_pos", "class_weights_balanced", "xclass_weights_balanced",
 ]]
 
 
